@@ -196,6 +196,23 @@ def impl_run(case):
         replay.append(_do(u1, o))
         _do(others[i % len(others)], case["other_ops"][i % len(case["other_ops"])])
     res["unseeded_independent"] = same_state and replay == cont
+    # a snapshot taken right after re-seeding in place (and right after another snapshot) is the snapshot of the NEW stream
+    for pre in ([], ops[:1], ops[:2]):
+        w = mk(777)
+        for o in pre:
+            _do(w, o)
+        w.getstate()
+        w.seed(4242)
+        snap = w.getstate()
+        fresh = mk(4242)
+        want = [_do(fresh, o) for o in ops]
+        v = mk(5)
+        v.setstate(snap)
+        import copy as _copy
+        w2 = _copy.copy(w) if hasattr(w, "__copy__") or True else w
+        if [_do(v, o) for o in ops] != want or [_do(w, o) for o in ops] != want:
+            res["snapshots_ok"] = False
+            res["snapshot_failed_at"] = "after-reseed"
     return res
 
 
